@@ -399,31 +399,59 @@ Lemma create_backend_ok s p k name type lk py s' v :
   s' = add_ent s (mkEnt (new_hdr s k p name type) lk py) /\ v = VEnt (Some (next s)).
 Proof. unfold create_backend. destruct (h5_bad_link_name name); intros E; inversion E. auto. Qed.
 
+Lemma add_ent_appends s s' p k lk py n t : s' = add_ent s (mkEnt (new_hdr s k p n t) lk py) ->
+  map e_oid (children s' p k) = map e_oid (children s p k) ++ [next s] /\
+  forall p' k', (p', k') <> (p, k) -> children s' p' k' = children s p' k'.
+Proof.
+  intros E. subst s'. split.
+  - rewrite children_add.
+    assert (IC : in_container p k (mkEnt (new_hdr s k p n t) lk py) = true).
+    { unfold in_container. apply andb_true_iff. split; [apply opt_nat_eqb_eq; reflexivity|apply kind_eqb_refl]. }
+    rewrite IC, map_app. reflexivity.
+  - intros p' k' Hne. rewrite children_add.
+    destruct (in_container p' k' (mkEnt (new_hdr s k p n t) lk py)) eqn:IC; [|apply app_nil_r].
+    unfold in_container in IC. apply andb_true_iff in IC. destruct IC as [E1 E2].
+    apply opt_nat_eqb_eq in E1. apply kind_eqb_eq in E2. cbn in E1, E2. subst. exfalso. apply Hne. reflexivity.
+Qed.
+
+Ltac appends_crush :=
+  repeat (match goal with
+          | |- (fail _ _) = _ -> _ => let E := fresh "E" in intros E; discriminate E
+          | |- create_backend _ _ _ _ _ _ _ = _ -> _ =>
+            let E := fresh "E" in let E1 := fresh "E1" in let E2 := fresh "E2" in
+            intros E; apply create_backend_ok in E; destruct E as [E1 E2]; split; [exact E2|eapply add_ent_appends; eauto]
+          | |- context [match ?y with _ => _ end] => destruct y
+          end).
+
+Lemma create_array_appends s pk p name type dt shp s' v :
+  create_array ids repaired s pk p name type dt shp = (s', Ok v) ->
+  v = VEnt (Some (next s)) /\
+  map e_oid (children s' p KArray) = map e_oid (children s p KArray) ++ [next s] /\
+  forall p' k', (p', k') <> (p, KArray) -> children s' p' k' = children s p' k'.
+Proof. unfold create_array. beh. appends_crush. Qed.
+
 Theorem create_appends s pk p k name type x s' v :
   do_create ids repaired s pk p k name type x = (s', Ok v) ->
   v = VEnt (Some (next s)) /\
   map e_oid (children s' p k) = map e_oid (children s p k) ++ [next s] /\
   forall p' k', (p', k') <> (p, k) -> children s' p' k' = children s p' k'.
 Proof.
-  assert (G : forall lk py n t, s' = add_ent s (mkEnt (new_hdr s k p n t) lk py) ->
-              map e_oid (children s' p k) = map e_oid (children s p k) ++ [next s] /\
-              forall p' k', (p', k') <> (p, k) -> children s' p' k' = children s p' k').
-  { intros lk py n t E. subst s'. split.
-    - rewrite children_add.
-      assert (IC : in_container p k (mkEnt (new_hdr s k p n t) lk py) = true).
-      { unfold in_container. apply andb_true_iff. split; [apply opt_nat_eqb_eq; reflexivity|apply kind_eqb_refl]. }
-      rewrite IC, map_app. reflexivity.
-    - intros p' k' Hne. rewrite children_add.
-      destruct (in_container p' k' (mkEnt (new_hdr s k p n t) lk py)) eqn:IC; [|apply app_nil_r].
-      unfold in_container in IC. apply andb_true_iff in IC. destruct IC as [E1 E2].
-      apply opt_nat_eqb_eq in E1. apply kind_eqb_eq in E2. cbn in E1, E2. subst. exfalso. apply Hne. reflexivity. }
-  unfold do_create. destruct k, x; try (intros E; discriminate E); beh;
-    repeat (match goal with
-            | |- (fail _ _) = _ -> _ => intros E; discriminate E
-            | |- create_backend _ _ _ _ _ _ _ = _ -> _ =>
-              intros E; apply create_backend_ok in E; destruct E as [E1 E2]; split; [exact E2|eapply G; eauto]
-            | |- context [match ?y with _ => _ end] => destruct y
-            end).
+  unfold do_create. destruct k, x; try (intros E; discriminate E); beh; try (apply create_array_appends).
+  - appends_crush.
+  - appends_crush.
+  - appends_crush.
+  - appends_crush.
+  - (* array from data *)
+    destruct (dtype_writable mem _); cbn [negb]; [|intros E; discriminate E].
+    destruct (create_array ids repaired s pk p name type _ [n]) as [s1 r] eqn:CA. cbn [fst snd]. destruct r; intros E; inversion E; subst.
+    eapply create_array_appends; eauto.
+  - appends_crush.
+  - appends_crush.
+  - appends_crush.
+  - appends_crush.
+  - appends_crush.
+  - appends_crush.
+  - appends_crush.
 Qed.
 
 (** close and reopen: the library keeps no state outside the file *)
